@@ -46,12 +46,12 @@ ASSUMPTIONS = [
     "source models carry no StructuralInfo of their own",
 ]
 BUDGET = {"quick": 1200, "thorough": 30000}
+SIG_CONTRACTION = "C14/merge_nodes/edge-contraction-attribute"
+SIG_NO_OWN = "C14/merge/raised/adm-without-own-nodes"
 MIN_LABEL_FRACTION = {"models>=2": 0.5, "shared-nodes": 0.5, "hist-unmerge": 0.4, "hist-rollback": 0.15,
                       "hist-snapshot": 0.3, "kind:partition-ok": 0.04, "kind:family": 0.4,
                       "shared-delegated": 0.2}
 
-SIG_CONTRACTION = "C14/merge_nodes/edge-contraction-attribute"
-SIG_NO_OWN = "C14/merge/raised/adm-without-own-nodes"
 OPS = ["merge", "merge", "merge", "unmerge", "unmerge", "snapshot", "rollback"]
 SHIPPED = ["LBNL", "Network", "RENCI", "UKY"]
 
@@ -78,6 +78,30 @@ def enumerate_cases(tier):
 
 
 ENUM_EXHAUSTIVE = False
+
+
+def _n(nid, cls, typ, stitch=False, **deleg):
+    return dict({"id": nid, "cls": cls, "props": {"Name": nid, "Type": typ,
+                                                  "StitchNode": "true" if stitch else "false"}}, **deleg)
+
+
+_CD = {"primary": {"pool_id": "_", "capacities": {"unit": 1}}}
+PROBES = {
+    # two models that both contain the switch, its service and the edge between them: after the merge that edge
+    # carries networkx' 'contraction' bookkeeping
+    SIG_CONTRACTION: {"kind": "family", "history": [["merge", 0], ["merge", 0], ["unmerge", 0]], "family": {"models": [
+        {"gid": "adm-a", "nodes": [_n("sw", "NetworkNode", "Switch", True), _n("sw-ns", "NetworkService", "MPLS"),
+                                   _n("a-w0", "NetworkNode", "Server", cd=_CD)],
+         "edges": [["sw", "has", "sw-ns"]]},
+        {"gid": "adm-b", "nodes": [_n("sw", "NetworkNode", "Switch", True), _n("sw-ns", "NetworkService", "MPLS"),
+                                   _n("b-w0", "NetworkNode", "Server", cd=_CD)],
+         "edges": [["sw", "has", "sw-ns"]]}]}},
+    # a model all of whose nodes are already in the combined model
+    SIG_NO_OWN: {"kind": "family", "history": [["merge", 0], ["merge", 0], ["unmerge", 1]], "family": {"models": [
+        {"gid": "adm-a", "nodes": [_n("sw", "NetworkNode", "Switch", True), _n("a-w0", "NetworkNode", "Server", cd=_CD)],
+         "edges": []},
+        {"gid": "adm-b", "nodes": [_n("sw", "NetworkNode", "Switch", True)], "edges": []}]}},
+}
 
 
 # ------------------------------------------------------------------------------------------ reference model
@@ -195,7 +219,7 @@ def _run(case, NXCBM, NetworkXADMGraph):
             v.append((sig, msg))
 
     def done(nt=False):
-        return {"v": v, "nt": nt, "labels": labels}
+        return {"v": v, "nt": nt, "labels": sorted(set(labels))}
 
     imp = NetworkXGraphImporter()
     storage = imp.storage
